@@ -6,6 +6,7 @@ import importlib
 from ..runner import Stream, Ctx
 
 VARIANTS = ["rel", "san"]
+EXTRA_MODULES = ["C16Safety"]
 EXTRACTORS = ["extract_asserts"]
 RULE = ("union of the op streams of C01,C02,C04,C05,C06,C07,C08,C09,C12,C13,C14 (thinned to a per-stream cap) executed on the "
         "-fsanitize=address,undefined,float-cast-overflow -DENABLE_ASSERT build; an op is non-trivial if it reaches library code (all do); "
@@ -103,4 +104,7 @@ def streams(ctx):
                       model_ops=lambda ops, impl: ["# " + o for o in ops],
                       judge=lambda ops, impl, mops, model: [], timeout=600,
                       classify=lambda o, r: "ERR" if r.startswith("ERR") else "ok"))
+    # WP safety: P2.cpp:109 at wide magnitudes (finding F9, fixed in /repo 8cccffb; regression guard, PCV_SAFETY_P2WIDE=0 disables)
+    from .. import safety
+    out += safety.streams(Ctx(ctx.pid + "/safety", ctx.tier, ctx.seed))
     return out
